@@ -8,7 +8,7 @@ deriving Repr, DecidableEq
 inductive PyExc | valueError | indexError | nonTermination
 deriving Repr, DecidableEq
 inductive Out (α : Type) | ok (a : α) | err (e : DErr) | esc (x : PyExc)
-deriving Repr
+deriving Repr, DecidableEq
 
 instance : Monad Out where
   pure := .ok
@@ -27,7 +27,7 @@ structure Table where
   maxsize : Nat := Gen.defaultSize
   curSize : Int := 0
   resized : Bool := false
-deriving Repr
+deriving Repr, DecidableEq
 
 def maxStrDigits : Nat := 4300
 
@@ -110,13 +110,13 @@ structure Header where
   name : PyBuf
   value : PyBuf
   never : Bool
-deriving Repr
+deriving Repr, DecidableEq
 
 structure DecState where
   table : Table := {}
   allowed : Nat := Gen.defaultSize
   listLimit : Nat := Gen.defaultListLimit
-deriving Repr
+deriving Repr, DecidableEq
 
 /-- a length-prefixed string starting at `data` (data[0] carries the H bit): returns (buf, octets consumed) -/
 def readString (cap : Option Nat) (own : Bool) (data : Bytes) : Out (PyBuf × Nat) := do
